@@ -125,7 +125,7 @@ func GetLayerDigest(path string) (core.Digest, error) {
 
 // GetManifestDigest returns manifest or tag digest
 func GetManifestDigest(path string) (core.Digest, error) {
-	re := regexp.MustCompile("^.+/_manifests/(?:revisions|tags/.+/index)/sha256/([0-9a-z]+)/link$")
+	re := regexp.MustCompile("^.+/_manifests/(?:revisions|tags/[^/]+/index)/sha256/([0-9a-z]+)/link$")
 	matches := re.FindStringSubmatch(path)
 	if len(matches) < 2 {
 		return core.Digest{}, InvalidRegistryPathError{_manifests, path}
